@@ -37,6 +37,23 @@ exactly like the same call on a context variable.
 Callable kinds include callable OBJECTS whose __call__ is decorated with
 pass_context / pass_environment / pass_eval_context, marked on the instance
 or on the class: the safety check must see the object the template calls.
+
+Fourth part, *names the engine resolves itself*: environments with the i18n,
+do, loopcontrols and debug extensions loaded (gettext callables not installed,
+installed old-style, installed new-style).  The callable is bound to a NAME
+  gettext / ngettext / pgettext / npgettext (looked up in the context by the
+  `_` alias and by the code the trans tag compiles to), `_`, caller, loop,
+  super, self, varargs, kwargs, joiner, cycler, namespace, lipsum, range, dict
+by render data, env.globals, set (plain, in an if, twice, tuple), with, loop
+variable, macro parameter / default / keyword, call-block parameter, set inside
+a macro or block, from-import-as, and set in a parent of an include / an
+imported-with-context macro / a child or parent of an extends.  The use is
+`_(...)` at many sites, a trans block (plain, variables, trimmed, pluralize,
+context string, in a macro / loop / autoescape block) or a call of the name
+itself (output, for iterable, loop body, call block, filter argument, do, block,
+attribute and item of the bound value).  Same oracle: the unmarked twin bound
+to the name must be invoked, the marked one never, and render raises
+SecurityError.
 """
 from __future__ import annotations
 
@@ -46,7 +63,9 @@ import json
 PID = "C18"
 LEVEL = "exploration"
 TECHNIQUE = ("recording unsafe callables with an unmarked control twin over a composed reach-path grammar; "
-             "state-model monitor over multi-step mark/policy histories on one environment")
+             "state-model monitor over multi-step mark/policy histories on one environment; the same "
+             "twin oracle over names resolved by engine helpers (i18n `_` alias, trans tag) and shadowed "
+             "builtin/special names in environments with extensions loaded")
 RULE = ("case = (obtain form x alias wrapper x call site x argument form x callable kind x mark "
         "x environment kind x sync/async); base coverage enumerates every (site, kind, mark) and "
         "every (obtain, wrapper, mark) once, the rest is seeded sampling of the product; a case is "
@@ -64,8 +83,21 @@ RULE = ("case = (obtain form x alias wrapper x call site x argument form x calla
         "*list, *list+**dict] x call site x policy [allow-list, deny-list, type ban] x sync/async x "
         "optimizer on/off): every (method, receiver, policy) at the print site and every (site, "
         "method) once, plus seeded sampling; counted only when the same template with a context "
-        "variable written in place of the literal renders and consults the override for the method")
-LEVEL_TEXT = ("builtin-method policies: SecurityError on every reached call the override rejects, for "
+        "variable written in place of the literal renders and consults the override for the method; "
+        "resolved-name cases = (name bound [gettext, ngettext, pgettext, npgettext, _, caller, loop, super, "
+        "self, varargs, kwargs, joiner, cycler, namespace, lipsum, range, dict] x binding form [render data, "
+        "env.globals, set plain/in-if/twice/tuple, with, loop variable, macro parameter/default/keyword, "
+        "call-block parameter, set in macro/block, from-import-as, set before include / import-with-context "
+        "macro / in extends child / in extends parent] x use [16 sites of `_(...)`, 11 trans-block shapes, "
+        "10 sites calling the name, its attribute or item] x obtain form x arguments x callable kind x mark "
+        "x environment kind x sync/async x gettext callables none/old-style/new-style) in environments with "
+        "the i18n, do, loopcontrols and debug extensions: every (use, name, binding) row once with rotating "
+        "mark/kind (quick: `_`/trans rows all, name-call rows every second one by seed parity; thorough: all "
+        "rows x all marks) plus seeded sampling; counted only when the unmarked twin bound to the name is "
+        "invoked")
+LEVEL_TEXT = ("resolved names: 0 invocations and SecurityError on every reached (name, binding, use) row "
+              "with the i18n/do/loopcontrols/debug extensions loaded; "
+              "builtin-method policies: SecurityError on every reached call the override rejects, for "
               "literal and context receivers alike; "
               "held on every reached case: 0 invocations of the marked callable and SecurityError "
               "raised, over the composed grammar of reach paths (not exhaustive over all templates); "
@@ -76,6 +108,8 @@ ASSUMPTIONS = [
     "marks: jinja2.sandbox.unsafe, alters_data=True, and an is_safe_callable override that rejects objects carrying vt_forbidden and defers to super() otherwise",
     "histories: the override additionally rejects objects (or bound receivers) carrying vt_frozen and objects whose vt_name is in the environment's deny-list; marks are set on and removed from the object the template calls (function, instance, partial, class) or the function/class shared by both siblings; the unsafe mark is removed by deleting the attribute(s) jinja2.sandbox.unsafe was observed to add",
     "builtin-method policies: builtin methods cannot record their invocation, so the observation is the documented outcome (SecurityError from render) under a policy that rejects the method, given that the structural twin of the template (context variable in place of the literal) evaluates the call under a policy that admits it",
+    "resolved names: a call the engine makes because the template wrote `_(...)` or a trans block counts as a call written in the template (`_` is documented as the alias of gettext and trans as calling gettext/ngettext/pgettext/npgettext); the callable is bound to the name by the template, the render data or env.globals. Translation callables the application registers through install_gettext_callables / install_null_translations are application hooks and are never marked",
+    "extensions other than i18n, do, loopcontrols and debug are not loaded; only the resolved-name part runs with more than the do extension",
     "histories also require the reverse direction: once a mark or deny-list entry is removed the call must be let through again (reported under history-wrongly-blocked keys)",
 ]
 NSHARDS = {"quick": 16, "thorough": 16}
@@ -93,7 +127,12 @@ FLOORS = {
                            "history_override_env_cases": 230,
                            "bm_cases": 400, "bm_security_errors": 400,
                            "bm_literal_receiver_cases": 200, "bm_rejecting_consults": 400,
-                           "callable_object_pass_cases": 150}},
+                           "callable_object_pass_cases": 150,
+                           "helper_cases": 600, "helper_security_errors": 600,
+                           "helper_engine_resolved_cases": 120, "helper_alias_cases": 60,
+                           "helper_trans_cases": 60, "helper_shadowed_name_cases": 450,
+                           "helper_async_cases": 170, "helper_i18n:none": 190,
+                           "helper_i18n:null-old": 190, "helper_i18n:null-new": 190}},
     "thorough": {"evaluations": 60000, "distinct": 30000,
                  "counters": {"twin_invocations": 30000, "marked_renders": 30000,
                               "security_errors": 30000, "async_cases": 8000,
@@ -106,7 +145,12 @@ FLOORS = {
                               "history_override_env_cases": 8000,
                               "bm_cases": 3000, "bm_security_errors": 3000,
                               "bm_literal_receiver_cases": 1500, "bm_rejecting_consults": 3000,
-                              "callable_object_pass_cases": 1000}},
+                              "callable_object_pass_cases": 1000,
+                              "helper_cases": 6000, "helper_security_errors": 6000,
+                              "helper_engine_resolved_cases": 1500, "helper_alias_cases": 700,
+                              "helper_trans_cases": 800, "helper_shadowed_name_cases": 4500,
+                              "helper_async_cases": 1800, "helper_i18n:none": 2000,
+                              "helper_i18n:null-old": 2000, "helper_i18n:null-new": 2000}},
 }
 
 # ------------------------------------------------------------------ grammar
@@ -368,8 +412,11 @@ def make_callable(kind, mark, rec):
 _envs = {}
 
 
-def new_env(kind, is_async):
-    """A fresh environment of the given kind ('override' = the policy subclass)."""
+def new_env(kind, is_async, extensions=("jinja2.ext.do",), i18n="none"):
+    """A fresh environment of the given kind ('override' = the policy subclass).
+    i18n (only with the i18n extension among the extensions): 'none' = nothing
+    installed, 'null-old' / 'null-new' = install_null_translations with
+    old-style / new-style callables."""
     from jinja2.sandbox import ImmutableSandboxedEnvironment, SandboxedEnvironment
 
     if kind == "sandbox":
@@ -391,7 +438,11 @@ def new_env(kind, is_async):
                 if self.vt_denied and getattr(obj, "vt_name", None) in self.vt_denied:
                     return False
                 return super().is_safe_callable(obj)
-    env = cls(enable_async=is_async, extensions=["jinja2.ext.do"], cache_size=0)
+    env = cls(enable_async=is_async, extensions=list(extensions), cache_size=0)
+    if i18n == "null-old":
+        env.install_null_translations(newstyle=False)
+    elif i18n == "null-new":
+        env.install_null_translations(newstyle=True)
     env.globals["ident"] = lambda x: x
 
     async def agen(x):
@@ -400,13 +451,23 @@ def new_env(kind, is_async):
     return env
 
 
-def get_env(kind, is_async, templates):
+#: extension sets of the reach-path cases: the do extension only, or the i18n,
+#: do, loopcontrols and debug extensions with the gettext callables not
+#: installed / installed old-style / installed new-style
+EXTS = ["do", "all:none", "all:null-old", "all:null-new"]
+
+
+def get_env(kind, is_async, templates, ext="do"):
     from jinja2 import DictLoader
 
-    key = (kind, is_async)
+    key = (kind, is_async, ext)
     env = _envs.get(key)
     if env is None:
-        env = _envs[key] = new_env(kind, is_async)
+        if ext == "do":
+            env = new_env(kind, is_async)
+        else:
+            env = new_env(kind, is_async, HELPER_EXTENSIONS, ext.split(":", 1)[1])
+        _envs[key] = env
     env.loader = DictLoader(dict(templates))
     return env
 
@@ -435,7 +496,7 @@ def render_once(case, marked):
     rec = Rec()
     f, o = make_callable(case["kind"], case["mark"] if marked else None, rec)
     source, templates = compose(case)
-    env = get_env(case["env"], case["async"], templates)
+    env = get_env(case["env"], case["async"], templates, case.get("ext", "do"))
     data = {"f": f, "o": o, "d": {"f": f, "k": {"g": f}}, "l": [f], "t": (f,),
             "nested": [{"f": [f]}]}
     try:
@@ -479,19 +540,22 @@ def run_case(ctx, case, count=True):
             ctx.count("override_env_cases")
         if case["kind"].startswith(("cobj_pass_", "ccls_pass_")):
             ctx.count("callable_object_pass_cases")
-        ctx.dist([case[k] for k in ("obtain", "wrap", "site", "args", "kind", "mark", "env", "async")])
+        if case.get("ext", "do") != "do":
+            ctx.count("extension_env_cases")
+        ctx.dist([case[k] for k in ("obtain", "wrap", "site", "args", "kind", "mark", "env", "async")]
+                 + [case.get("ext", "do")])
     full = dict(case, source=source, templates=templates)
     mech = f"site={case['site']}:wrap={case['wrap']}:kind={case['kind']}:mark={case['mark']}"
     if mcalls:
         ctx.violation("invoked:" + mech,
                       f"marked callable ({case['kind']}/{case['mark']}, env {case['env']}, "
-                      f"async={case['async']}) was invoked {mcalls}x by {source!r} {templates}; "
+                      f"extensions {case.get('ext', 'do')}, async={case['async']}) was invoked {mcalls}x by {source!r} {templates}; "
                       f"render outcome: {mexc or mout!r}", full)
     elif mexc is None or mexc[0] != "SecurityError":
         ctx.violation("no-security-error:" + mech,
                       f"control twin is invoked {calls}x but with the mark the render of {source!r} "
                       f"{templates} gave {mexc or mout!r} instead of SecurityError "
-                      f"(env {case['env']}, async={case['async']})", full)
+                      f"(env {case['env']}, extensions {case.get('ext', 'do')}, async={case['async']})", full)
     elif count:
         ctx.count("security_errors")
     return True
@@ -519,7 +583,8 @@ def base_cases():
                 out.append({"obtain": "name", "wrap": "none", "site": site,
                             "args": ARGS[i % len(ARGS)], "kind": kind, "mark": mark,
                             "env": "override" if mark == "override" else ENVS[i % 3],
-                            "async": kind == "async_func" or i % 3 == 0})
+                            "async": kind == "async_func" or i % 3 == 0,
+                            "ext": EXTS[(i // 3) % 4]})
     for ob in OBTAIN:
         for wr in WRAP:
             for mark in MARKS:
@@ -529,7 +594,7 @@ def base_cases():
                 out.append({"obtain": ob, "wrap": wr, "site": "print",
                             "args": ARGS[i % len(ARGS)], "kind": kind, "mark": mark,
                             "env": "override" if mark == "override" else ENVS[i % 3],
-                            "async": a})
+                            "async": a, "ext": EXTS[(i // 3) % 4]})
     return [c for c in out if valid(c)]
 
 
@@ -540,7 +605,7 @@ def random_case(rng):
              "site": rng.choice(list(SITES)), "args": rng.choice(ARGS),
              "kind": rng.choice(KINDS), "mark": mark,
              "env": "override" if mark == "override" else rng.choice(ENVS),
-             "async": rng.random() < 0.3}
+             "async": rng.random() < 0.3, "ext": rng.choice(EXTS)}
         if valid(c):
             return c
 
@@ -1364,6 +1429,265 @@ def bm_random_case(rng):
             "optimized": rng.random() < 0.75}
 
 
+# ------------------------------------------- names the engine resolves itself
+# Fourth part: the callable is bound to a NAME that an engine-provided helper
+# (or a tag compiled by an extension) looks up in the context and calls on the
+# template's behalf, or to the name of a builtin global / special variable the
+# template then calls.  Environments carry the i18n, do, loopcontrols and debug
+# extensions; the gettext functions are not installed, installed old-style or
+# installed new-style.  @N@ = the name, ## = obtain expression, BODY = the use.
+HELPER_EXTENSIONS = ("jinja2.ext.do", "jinja2.ext.i18n", "jinja2.ext.loopcontrols",
+                     "jinja2.ext.debug")
+I18N_MODES = ["none", "null-old", "null-new"]
+GETTEXT_NAMES = ["gettext", "ngettext", "pgettext", "npgettext"]
+HELPER_NAMES = GETTEXT_NAMES + ["_", "caller", "loop", "super", "self", "varargs", "kwargs",
+                                "joiner", "cycler", "namespace", "lipsum", "range", "dict"]
+# shadow: how the name comes to hold the callable -> (source text, extra templates)
+# 'data' / 'global' put the value into the render data / env.globals instead.
+HELPER_SHADOW = {
+    "data": ("BODY", {}),
+    "global": ("BODY", {}),
+    "set": ("{% set @N@ = ## %}BODY", {}),
+    "set_in_if": ("{% if true %}{% set @N@ = ## %}{% endif %}BODY", {}),
+    "set_twice": ("{% set @N@ = none %}{% set @N@ = ## %}BODY", {}),
+    "set_tuple": ("{% set hz, @N@ = 1, ## %}BODY", {}),
+    "with": ("{% with @N@ = ## %}BODY{% endwith %}", {}),
+    "loop_var": ("{% for @N@ in [##] %}BODY{% endfor %}", {}),
+    "macro_param": ("{% macro wm(@N@) %}BODY{% endmacro %}{{ wm(##) }}", {}),
+    "macro_default": ("{% macro wm(@N@=##) %}BODY{% endmacro %}{{ wm() }}", {}),
+    "macro_kwarg": ("{% macro wm() %}BODY{% endmacro %}{{ wm(@N@=##) }}", {}),
+    "call_param": ("{% macro wm() %}{{ caller(##) }}{% endmacro %}{% call(@N@) wm() %}BODY{% endcall %}", {}),
+    "macro_body_set": ("{% macro wm() %}{% set @N@ = ## %}BODY{% endmacro %}{{ wm() }}", {}),
+    "block_set": ("{% block hb %}{% set @N@ = ## %}BODY{% endblock %}", {}),
+    "from_import_as": ("{% from 'hlib' import hg as @N@ with context %}BODY",
+                       {"hlib": "{% set hg = ## %}"}),
+    "include_parent_set": ("{% set @N@ = ## %}{% include 'hinc' %}", {"hinc": "BODY"}),
+    "import_ctx_macro": ("{% set @N@ = ## %}{% import 'hlib2' as hl with context %}{{ hl.hm() }}",
+                         {"hlib2": "{% macro hm() %}BODY{% endmacro %}"}),
+    "extends_child_set": ("{% extends 'hbase' %}{% set @N@ = ## %}{% block hb %}BODY{% endblock %}",
+                          {"hbase": "<{% block hb %}{% endblock %}>"}),
+    "extends_parent_set": ("{% extends 'hbase2' %}{% block hb %}BODY{% endblock %}",
+                           {"hbase2": "{% set @N@ = ## %}<{% block hb %}{% endblock %}>"}),
+}
+# use: how the call happens.  'family' uses go through the `_` alias or the
+# trans tag (the engine resolves a gettext-family name); 'generic' uses call
+# the name itself.
+HELPER_USE = {
+    "alias": "{{ _('x') }}",
+    "alias_kwargs": "{{ _('x %(a)s', a=1) }}",
+    "alias_filter": "{{ _('x')|upper }}",
+    "alias_in_if": "{% if _('x') %}y{% endif %}",
+    "alias_in_set": "{% set hv = _('x') %}{{ hv }}",
+    "alias_in_set_block": "{% set hv %}{{ _('x') }}{% endset %}{{ hv }}",
+    "alias_filter_arg": "{{ none|default(_('x'), true) }}",
+    "alias_test_arg": "{{ 1 is eq(_('x')) }}",
+    "alias_in_macro": "{% macro hm2() %}{{ _('x') }}{% endmacro %}{{ hm2() }}",
+    "alias_in_loop": "{% for hi in [1, 2] %}{{ _('x') }}{% endfor %}",
+    "alias_in_call_block": "{% macro hm3() %}{{ caller() }}{% endmacro %}{% call hm3() %}{{ _('x') }}{% endcall %}",
+    "alias_in_filter_block": "{% filter upper %}{{ _('x') }}{% endfilter %}",
+    "alias_in_autoescape": "{% autoescape true %}{{ _('<x>') }}{% endautoescape %}",
+    "alias_renamed": "{% set tr = _ %}{{ tr('x') }}",
+    "alias_macro_arg": "{% macro hm4(t) %}{{ t('x') }}{% endmacro %}{{ hm4(_) }}",
+    "alias_do": "{% do _('x') %}",
+    "trans": "{% trans %}x{% endtrans %}",
+    "trans_var": "{% trans a=1 %}x {{ a }}{% endtrans %}",
+    "trans_trimmed": "{% trans trimmed %}  x\n  y {% endtrans %}",
+    "trans_in_macro": "{% macro hm5() %}{% trans %}x{% endtrans %}{% endmacro %}{{ hm5() }}",
+    "trans_in_loop": "{% for hi in [1, 2] %}{% trans %}x{% endtrans %}{% endfor %}",
+    "trans_autoescape": "{% autoescape true %}{% trans a='<' %}x {{ a }}{% endtrans %}{% endautoescape %}",
+    "trans_plural": "{% trans n=2 %}one{% pluralize %}many {{ n }}{% endtrans %}",
+    "trans_plural_count": "{% trans a=1, hc=3 %}one {{ a }}{% pluralize hc %}{{ hc }} many{% endtrans %}",
+    "trans_ctx": "{% trans 'c' %}x{% endtrans %}",
+    "trans_ctx_var": "{% trans 'c' a=1 %}x {{ a }}{% endtrans %}",
+    "trans_ctx_plural": "{% trans 'c' n=2 %}one{% pluralize %}many {{ n }}{% endtrans %}",
+    "call": "{{ @N@(ARGS) }}",
+    "call_in_for": "{% for hi in @N@(ARGS) %}{{ hi }}{% endfor %}",
+    "call_in_loop_body": "{% for hx in [1] %}{{ @N@(ARGS) }}{% endfor %}",
+    "call_block": "{% call @N@(ARGS) %}{% endcall %}",
+    "call_filter_arg": "{{ 1|default(@N@(ARGS)) }}",
+    "call_do": "{% do @N@(ARGS) %}",
+    "call_in_call_block": "{% macro hm3() %}{{ caller() }}{% endmacro %}{% call hm3() %}{{ @N@(ARGS) }}{% endcall %}",
+    "call_in_block": "{% block hb2 %}{{ @N@(ARGS) }}{% endblock %}",
+    "attr_call": "{{ @N@.m(ARGS) }}",
+    "item_call": "{{ @N@[0](ARGS) }}",
+}
+FAMILY_USES = [u for u in HELPER_USE if u.startswith(("alias", "trans"))]
+GENERIC_USES = [u for u in HELPER_USE if u not in FAMILY_USES]
+#: obtain expressions that make sense for the value bound to the name
+HELPER_OBTAIN = {"attr_call": ["holder"], "item_call": ["list"]}
+HELPER_OBTAIN_TEXT = {"holder": "o", "list": "l"}
+
+_henvs = {}
+
+
+def helper_env(kind, is_async, i18n):
+    key = (kind, is_async, i18n)
+    env = _henvs.get(key)
+    if env is None:
+        env = _henvs[key] = new_env(kind, is_async, HELPER_EXTENSIONS, i18n)
+    return env
+
+
+def helper_compose(case):
+    name, use = case["name"], case["use"]
+    ob = case["obtain"]
+    obtain = HELPER_OBTAIN_TEXT.get(ob) or OBTAIN[ob]
+    wrap, extra = HELPER_SHADOW[case["shadow"]]
+
+    def fill(text):
+        return (text.replace("BODY", HELPER_USE[use]).replace("@N@", name)
+                .replace("##", obtain).replace("ARGS", case["args"]))
+    return fill(wrap), {k: fill(v) for k, v in extra.items()}
+
+
+def helper_render(case, marked):
+    from jinja2 import DictLoader
+    from jinja2.exceptions import SecurityError
+
+    rec = Rec()
+    f, o = make_callable(case["kind"], case["mark"] if marked else None, rec)
+    source, templates = helper_compose(case)
+    env = helper_env(case["env"], case["async"], case["i18n"])
+    env.loader = DictLoader(dict(templates))
+    data = {"f": f, "o": o, "d": {"f": f, "k": {"g": f}}, "l": [f], "t": (f,),
+            "nested": [{"f": [f]}]}
+    value = {"holder": o, "list": [f]}.get(case["obtain"], f)
+    missing = object()
+    saved = missing
+    if case["shadow"] == "data":
+        data[case["name"]] = value
+    elif case["shadow"] == "global":
+        saved = env.globals.get(case["name"], missing)
+        env.globals[case["name"]] = value
+    try:
+        # positional dict: names such as 'self' cannot be keyword arguments
+        out = env.from_string(source).render(data)
+        exc = None
+    except SecurityError as e:
+        out, exc = None, ("SecurityError", str(e))
+    except Exception as e:
+        out, exc = None, (type(e).__name__, str(e)[:200])
+    finally:
+        if case["shadow"] == "global":
+            if saved is missing:
+                env.globals.pop(case["name"], None)
+            else:
+                env.globals[case["name"]] = saved
+    return rec.calls, out, exc, source, templates
+
+
+def helper_valid(case):
+    if case["kind"] == "async_func" and not case["async"]:
+        return False
+    if case["mark"] == "override" and case["env"] != "override":
+        return False
+    if case["shadow"] in ("data", "global") and case["obtain"] not in ("name", "holder", "list"):
+        return False
+    want = HELPER_OBTAIN.get(case["use"])
+    if want is not None:
+        return case["obtain"] in want
+    return case["obtain"] not in HELPER_OBTAIN_TEXT
+
+
+def run_helper_case(ctx, case, count=True):
+    """-> True if reached: the control twin bound to the name is invoked."""
+    calls, out, exc, source, templates = helper_render(case, marked=False)
+    if count:
+        ctx.ev()
+        ctx.count("helper_twin_renders")
+    if exc is not None and exc[0] == "SecurityError":
+        if count:
+            ctx.count("helper_twin_security_error")
+        return False
+    if calls == 0:
+        if count:
+            ctx.count("helper_unreached")
+        return False
+    mcalls, mout, mexc, _, _ = helper_render(case, marked=True)
+    family = case["use"] in FAMILY_USES and case["name"] in GETTEXT_NAMES
+    if count:
+        ctx.ev()
+        ctx.count("helper_cases")
+        ctx.count("helper_twin_invocations", calls)
+        ctx.count("helper_use:" + case["use"])
+        ctx.count("helper_shadow:" + case["shadow"])
+        ctx.count("helper_name:" + case["name"])
+        ctx.count("helper_i18n:" + case["i18n"])
+        if family:
+            ctx.count("helper_engine_resolved_cases")
+            ctx.count("helper_alias_cases" if case["use"].startswith("alias") else "helper_trans_cases")
+        else:
+            ctx.count("helper_shadowed_name_cases")
+        if case["async"]:
+            ctx.count("helper_async_cases")
+        ctx.dist(["helper"] + [case[k] for k in ("name", "use", "shadow", "obtain", "args", "kind",
+                                                  "mark", "env", "async", "i18n")])
+    full = dict(case, helper=True, source=source, templates=templates)
+    # mechanism = which name was resolved, by whom (the `_` alias, the trans tag,
+    # or a call of the name written at this kind of site) and which mark was
+    # ignored; how the name got its value and the callable kind are in the text
+    use = case["use"]
+    through = ("underscore-alias" if use.startswith("alias") else
+               "trans-tag" if use.startswith("trans") else "written-" + use)
+    mech = f"name={case['name']}:through={through}:mark={case['mark']}"
+    where = (f"{source!r} {templates or ''} (env {case['env']} with extensions i18n/do/loopcontrols/debug, "
+             f"gettext callables: {case['i18n']}, async={case['async']})")
+    if mcalls:
+        ctx.violation("invoked-via-resolved-name:" + mech,
+                      f"marked callable ({case['kind']}/{case['mark']}) bound to the name "
+                      f"{case['name']!r} ({case['shadow']}) was invoked {mcalls}x by {where}; "
+                      f"render outcome: {mexc or mout!r}", full)
+    elif mexc is None or mexc[0] != "SecurityError":
+        ctx.violation("no-security-error-via-resolved-name:" + mech,
+                      f"control twin bound to {case['name']!r} is invoked {calls}x but with the mark "
+                      f"{where} gave {mexc or mout!r} instead of SecurityError", full)
+    elif count:
+        ctx.count("helper_security_errors")
+    return True
+
+
+def helper_rows():
+    """Deterministic (use, name, shadow) table: engine-resolved uses x the
+    gettext-family names and `_`; generic uses x every name."""
+    rows = []
+    for use in FAMILY_USES:
+        for name in GETTEXT_NAMES + ["_"]:
+            for shadow in HELPER_SHADOW:
+                rows.append((use, name, shadow))
+    for use in GENERIC_USES:
+        for name in HELPER_NAMES:
+            for shadow in HELPER_SHADOW:
+                rows.append((use, name, shadow))
+    return rows
+
+
+def helper_case_for(i, use, name, shadow, mark, salt=0):
+    j = i + salt
+    kind = KINDS[j % len(KINDS)]
+    ob = HELPER_OBTAIN.get(use, [None])[0]
+    if ob is None:
+        ob = "name" if shadow in ("data", "global") else list(OBTAIN)[(j // 3) % len(OBTAIN)]
+    return {"name": name, "use": use, "shadow": shadow, "obtain": ob,
+            "args": ARGS[j % len(ARGS)], "kind": kind, "mark": mark,
+            "env": "override" if mark == "override" else ENVS[j % 3],
+            "async": kind == "async_func" or j % 4 == 0, "i18n": I18N_MODES[(j // 2) % 3]}
+
+
+def helper_random_case(rng):
+    while True:
+        mark = rng.choice(MARKS)
+        use = rng.choice(list(HELPER_USE))
+        family = use in FAMILY_USES
+        c = {"name": rng.choice(GETTEXT_NAMES if family and rng.random() < 0.9 else HELPER_NAMES),
+             "use": use, "shadow": rng.choice(list(HELPER_SHADOW)),
+             "obtain": rng.choice(HELPER_OBTAIN.get(use) or list(OBTAIN)),
+             "args": rng.choice(ARGS), "kind": rng.choice(KINDS), "mark": mark,
+             "env": "override" if mark == "override" else rng.choice(ENVS),
+             "async": rng.random() < 0.3, "i18n": rng.choice(I18N_MODES)}
+        if helper_valid(c):
+            return c
+
+
 def run(ctx):
     import warnings
 
@@ -1427,6 +1751,29 @@ def run(ctx):
             ctx.sample(spec)
         i += 1
     ctx.count("history_random", i)
+    # names the engine resolves itself / shadowed builtin names, extensions loaded
+    nhelp = 0
+    hs = 0
+    for i, (use, name, shadow) in enumerate(helper_rows()):
+        if not ctx.mine(i):
+            continue
+        r = i // ctx.nshards + ctx.seed
+        # quick: one mark per row (rotating with the seed), generic uses every second row
+        marks = [MARKS[r % 3]] if quick else MARKS
+        if quick and use in GENERIC_USES and r % 2:
+            continue
+        for mark in marks:
+            case = helper_case_for(i, use, name, shadow, mark, salt=ctx.seed)
+            if not helper_valid(case):
+                continue
+            nhelp += 1
+            if run_helper_case(ctx, case) and hs < 1 and ctx.shard in (7, 8):
+                hs += 1
+                ctx.sample(dict(case, source=helper_compose(case)[0]))
+    rng = ctx.rng("helperrand")
+    for _ in range(60 if quick else 2500):
+        run_helper_case(ctx, helper_random_case(rng))
+    ctx.count("helper_core_rows", nhelp)
     rng = ctx.rng("rand")
     n_max = 900 if quick else 40000
     i = 0
@@ -1446,6 +1793,8 @@ def replay(ctx, case):
     warnings.simplefilter("ignore")
     if case.get("hist"):
         run_history(ctx, case, count=False)
+    elif case.get("helper"):
+        run_helper_case(ctx, case, count=False)
     elif case.get("bm"):
         run_bm_case(ctx, case, count=False)
     else:
